@@ -8,29 +8,42 @@ UNIT_NOTES = {
     "scalars": "L5 scalar kernels: get_gas_limit, get_inscription_byte_len (+ lemma: parked transactions keep at most their allowance)",
 }
 
+COMMON_TRUST = ("Trusted: Verus/Z3/rustc; vstd's std specs; the prelude's assume_specification / external_body wrappers for std "
+                "compositions (rules N4,N7,N8,N15-N20: the wrapper's executable body is the replaced std text); RocksDB as an ordered byte map "
+                "with atomic, program-ordered writes (DB shim); type-parameter assumptions (structural ==, clone returns an equal value, codec_ok). "
+                "Block heights < 2^63 is an explicit precondition. ")
+
 PROPS = {
     "C01": {
         "units": ["history", "table", "blockdb", "dbfacade"],
         "kani": [],
-        "level": "proof",
-        "assumptions": [],
+        "level_text": "Function-by-function proof that an accepted rollback restores the state as of N on the storage kernel: per-key history (set/unset/prune/reorg, window lemmas), block tables (reorg truncates to <= N), facade reorg (depth guard exactly `max ever > 10 + N => Err and *final == *old`; one rolled-back conjunct per table, 12 + 3), every setter stamped with the next block height, recorded maximum monotone.",
+        "level_note": COMMON_TRUST + "Assumed contracts: BlockCachedDatabase::reorg (body not yet under proof; contract in contracts/table/reorg.contract), and that a passing depth check implies every history holds a version <= N (precondition of facade reorg). Not covered: engine glue and RPC layer, revm's DatabaseCommit feeding the tables, comparison with a second fresh instance (replaced by value_at semantics).",
+        "assumptions": [
+            "BlockCachedDatabase::reorg contract assumed (stage 2)",
+            "facade reorg: `max_recorded <= 10 + N ==> every history has a version <= N` is a precondition (follows from pruning relative to the monotone recorded maximum; not yet proved as an invariant)",
+            "engine/RPC layer, revm DatabaseCommit, closure bodies passed to SharedData are outside the kernel",
+        ],
     },
     "C03": {
         "units": ["table", "blockdb", "dbfacade"],
         "kani": [],
-        "level": "proof",
-        "assumptions": [],
+        "level_text": "Proof that commit points are unobservable on the storage kernel: table commit preserves cur(k) for every key (also on Err), block-table commit preserves view_at, commit_changes preserves every read of all 15 stores and empties all caches, clear_caches changes nothing persisted and resets the cached height; reads are functions of the merged view only.",
+        "level_note": COMMON_TRUST + "`Stop and reopen` is the DB shim's assumption that a reopened store has the same byte map. Engine-level guards (commit only with no block under construction) are covered under C05. Assumed contracts: table get_range/all/reorg.",
+        "assumptions": ["reopen = same byte map (DB shim)", "table get_range/all contracts assumed (stage 2)"],
     },
     "C13": {
         "units": ["history", "table", "blockdb"],
         "kani": [],
-        "level": "proof",
-        "assumptions": [],
+        "level_text": "Proof against an abstract Map model written from the statement: per-key history functional postconditions (set_spec / truncated / pruned) + lemmas (window preserved, rollback restores, <= 11 versions); table latest/set/unset/commit/retrieve_cache/clear_cache; block table get/set/commit/last_key/reorg with loop invariants and termination.",
+        "level_note": COMMON_TRUST + "Assumed contracts: BlockCachedDatabase::{reorg,get_range,all} (bodies not yet under proof).",
+        "assumptions": ["BlockCachedDatabase::{reorg,get_range,all} contracts assumed (stage 2)"],
     },
     "C16": {
         "units": ["scalars"],
         "kani": [],
-        "level": "proof",
+        "level_text": "Verus discharges, for all u64 inputs, functional postconditions on the real get_gas_limit / get_inscription_byte_len (allowance = min(len*12000, u64::MAX); inverse = g/12000) plus the lemma that the inverse never grants more than the stored allowance. Narrow: first sentence of the statement only.",
+        "level_note": "Assumed: vstd spec of saturating_mul, assumed spec of saturating_div, Z3/Verus/rustc. Not covered: receipts' gas, out-of-gas atomicity (revm), eth_estimateGas sufficiency (async + revm).",
         "assumptions": [
             "only the first sentence of the statement is decided (allowance = 12000 gas per byte, saturating, and its inverse for parked transactions)",
             "not covered: gas recorded in receipts, out-of-gas atomicity (revm), eth_estimateGas sufficiency (async handler around revm)",
@@ -38,3 +51,14 @@ PROPS = {
         ],
     },
 }
+
+NOT_APPLICABLE = {
+    "C07": "conservation is a property of Solidity/EVM bytecode executed by revm; neither Verus nor Kani has a semantics for it, no contract within reach can state it",
+    "C10": "non-mutation is the frame condition of revm's replay/transact_one inside async fns; it could only be assumed, not proved, on code within reach",
+    "C11": "quantifies over thread schedules; Kani has no threads, Verus would need permission types threaded through the code (different code)",
+    "C17": "relational equivalence of two entry points of an external interpreter over arbitrary bytecode; no contract on code within reach expresses it",
+}
+PENDING = ["C02", "C04", "C05", "C06", "C08", "C09", "C12", "C14", "C15", "C18", "C19", "C20"]
+for _p in PENDING:
+    if _p not in PROPS:
+        NOT_APPLICABLE[_p] = "check under construction in this commit (DESIGN.md 0); claimed once its units discharge"
